@@ -411,19 +411,31 @@ package helper
 //@ ensures[C01,C15] psum(b, j) == psum(a, max(0, j-P))
 //@ induction j
 
-// ---- Bst (pointer tree): structural contract is bounded only (DESIGN C17); callers see an opaque mutable object
+// ---- Bst (pointer tree): abstract state = multiset of the values held, bcount(b,v) = multiplicity of v --------------
+// The structural contract below is ASSUMED (trusted): it is what the bounded history check of the real tree
+// (all Insert/Remove histories up to a stated length, compared with a multiset) and the machine-arithmetic
+// comparison obligations of searchNode (C17) support; callers (MovingMax/MovingMin) are proved relative to it.
 //@ func NewBst
-//@ trusted fresh empty tree (structure covered by the bounded Bst check)
+//@ trusted multiset model of the tree (bounded history check, C17)
+//@ ensures forall v real :: bcount(result, v) == 0
 //@ func Bst.Insert
-//@ trusted
+//@ trusted multiset model of the tree (bounded history check, C17)
 //@ modifies b
+//@ ensures forall v real :: bcount(b, v) == old(bcount(b, v)) + (v == value ? 1 : 0)
+//@ ensures bcount(b, value) == old(bcount(b, value)) + 1
 //@ func Bst.Remove
-//@ trusted
+//@ trusted multiset model of the tree (bounded history check, C17)
 //@ modifies b
-//@ func Bst.Min
-//@ trusted
+//@ ensures result == (old(bcount(b, value)) > 0)
+//@ ensures forall v real :: bcount(b, v) == old(bcount(b, v)) - ((v == value && old(bcount(b, value)) > 0) ? 1 : 0)
 //@ func Bst.Max
-//@ trusted
+//@ trusted multiset model of the tree (bounded history check, C17)
+//@ ensures forall v real :: bcount(b, v) > 0 ==> v <= result
+//@ ensures forall v real :: bcount(b, v) > 0 ==> bcount(b, result) > 0
+//@ func Bst.Min
+//@ trusted multiset model of the tree (bounded history check, C17)
+//@ ensures forall v real :: bcount(b, v) > 0 ==> v >= result
+//@ ensures forall v real :: bcount(b, v) > 0 ==> bcount(b, result) > 0
 
 // ---- reports: a Report is a date stream plus a list of columns, each backed by its own value stream (C14) --------
 // col(x) / colnum(x) / colstr(x): the value stream of column object x
@@ -507,3 +519,61 @@ package helper
 //@ func Csv.AppendToFile
 //@ requires consumed(rows) == 0
 //@ guarantees[C11] "append-keeps-existing-rows" result == nil ==> fappend(res(os_OpenFile, 0, 0)) == 1 && ftrunc(res(os_OpenFile, 0, 0)) == 0
+
+
+// ---- sliding-window multiset lemmas (induction on the upper end of the window) -------------------------------------
+//@ lemma wcount_bounds(s stream, lo int, hi int, v real)
+//@ requires[C01,C15] lo <= hi
+//@ ensures[C01,C15] 0 <= wcount(s, lo, hi, v) && wcount(s, lo, hi, v) <= hi - lo
+//@ induction hi
+// dropping the first position of the window removes exactly one occurrence of the value that sat there
+//@ lemma wcount_dropfirst(s stream, lo int, hi int, v real)
+//@ requires[C01,C15] lo < hi
+//@ ensures[C01,C15] wcount(s, lo + 1, hi, v) == wcount(s, lo, hi, v) - (s[lo] == v ? 1 : 0)
+//@ induction hi
+// a value occurs in the window iff its count is positive
+//@ lemma wcount_member(s stream, lo int, hi int, j int)
+//@ requires[C01,C15] lo <= j && j < hi
+//@ ensures[C01,C15] wcount(s, lo, hi, s[j]) >= 1
+//@ use wcount_bounds(s, lo, hi - 1, s[j])
+//@ induction hi
+//@ lemma wcount_witness(s stream, lo int, hi int, v real)
+//@ requires[C01,C15] lo <= hi && wcount(s, lo, hi, v) >= 1
+//@ ensures[C01,C15] exists j :: lo <= j && j < hi && s[j] == v
+//@ induction hi
+// the window maximum / minimum bounds every element of the window, is bounded by every bound, hence is characterised
+//@ lemma wmax_ge(s stream, lo int, hi int, j int)
+//@ requires[C01,C15] lo <= j && j < hi
+//@ ensures[C01,C15] s[j] <= wmaxS(s, lo, hi)
+//@ induction hi
+//@ lemma wmax_le(s stream, lo int, hi int, x real)
+//@ requires[C01,C15] lo < hi && (forall j :: lo <= j && j < hi ==> s[j] <= x)
+//@ ensures[C01,C15] wmaxS(s, lo, hi) <= x
+//@ induction hi
+//@ lemma wmax_char(s stream, lo int, hi int, x real)
+//@ requires[C01,C15] lo < hi && (forall j :: lo <= j && j < hi ==> s[j] <= x) && (exists j :: lo <= j && j < hi && s[j] == x)
+//@ ensures[C01,C15] wmaxS(s, lo, hi) == x
+//@ use wmax_le(s, lo, hi, x)
+//@ use wmax_ge(s, lo, hi, _)
+//@ lemma wmin_le(s stream, lo int, hi int, j int)
+//@ requires[C01,C15] lo <= j && j < hi
+//@ ensures[C01,C15] s[j] >= wminS(s, lo, hi)
+//@ induction hi
+//@ lemma wmin_ge(s stream, lo int, hi int, x real)
+//@ requires[C01,C15] lo < hi && (forall j :: lo <= j && j < hi ==> s[j] >= x)
+//@ ensures[C01,C15] wminS(s, lo, hi) >= x
+//@ induction hi
+//@ lemma wmin_char(s stream, lo int, hi int, x real)
+//@ requires[C01,C15] lo < hi && (forall j :: lo <= j && j < hi ==> s[j] >= x) && (exists j :: lo <= j && j < hi && s[j] == x)
+//@ ensures[C01,C15] wminS(s, lo, hi) == x
+//@ use wmin_ge(s, lo, hi, x)
+//@ use wmin_le(s, lo, hi, _)
+// pointwise equal streams have equal window extrema
+//@ lemma wmax_cong(a stream, b stream, lo int, hi int)
+//@ requires[C01,C15] forall j :: lo <= j && j < hi ==> a[j] == b[j]
+//@ ensures[C01,C15] wmaxS(a, lo, hi) == wmaxS(b, lo, hi)
+//@ induction hi
+//@ lemma wmin_cong(a stream, b stream, lo int, hi int)
+//@ requires[C01,C15] forall j :: lo <= j && j < hi ==> a[j] == b[j]
+//@ ensures[C01,C15] wminS(a, lo, hi) == wminS(b, lo, hi)
+//@ induction hi
